@@ -16,7 +16,8 @@ RULE = (
     "SimulatedOrder fills; live mode: real CurrentOrder resources): up to 4 selections x up to 4 orders (6 in "
     "thorough), both sides, LIMIT / LIMIT_ON_CLOSE / MARKET_ON_CLOSE, classic / finest / line ladders, any "
     "matched/remaining split, every order status (EXPIRED only unmatched), 1-3 winners, active runners >= runners "
-    "with orders, plus orders of a second strategy that must be ignored. Oracle: brute force over every subset of "
+    "with orders, plus orders of a second strategy that must be ignored; one order in six was refused by a control on "
+    "an earlier attempt (VIOLATION) and then submitted again. Oracle: brute force over every subset of "
     "open orders and every admissible winner set; metamorphic exclusion / new_order relations. Non-trivial: a "
     "selection with >= 2 open orders of both sides plus a matched position; distinct = distinct case JSON."
 )
@@ -66,6 +67,8 @@ def order_spec(draw, ladder):
         o["liability"] = draw(st.integers(1, 20000)) / 100
         if typ == "LOC":
             o["price"] = ticks[draw(st.integers(0, 250))]
+    # the order object was refused by a control on an earlier attempt (VIOLATION, never sent) and submitted again
+    o["resub"] = status != "VIOLATION" and draw(st.integers(0, 5)) == 0
     return o
 
 
@@ -109,6 +112,8 @@ def apply_state(order, spec, live):
     if status == "VIOLATION":
         order.violation("x")
         return
+    if spec.get("resub"):
+        order.violation("refused on an earlier attempt")
     order.placing()
     if status == "PENDING":
         return
@@ -185,6 +190,8 @@ def check(c):
             apply_state(o, spec, live)
         mb = types.SimpleNamespace(number_of_active_runners=c["n_active"], number_of_winners=c["n_winners"])
         classes = {"live" if live else "simulated", "ladder:" + ladder}
+        if any(o.get("resub") for s_ in c["sels"] for o in s_["orders"]):
+            classes.add("order-resubmitted-after-refusal")
         nontrivial = False
         per_runner = []
 
